@@ -399,11 +399,16 @@ USERS = ["", "bob", "bo", "bobby", "Bob", "BOB", ".*", "a|b", "(", "bob@example.
 PERMS = ["RW", "rw", "R", "r", "RrWw", "i", "", "W", "Rr"]
 USER_PATTERNS = [".+", ".*", "bob", "bob|alice", "(bob)|(alice)", "(bob|alice)", ".+@([^@]+)", "(.+)@(.+)", "[^@]+@example\\.com",
                  "b.b", "bob.*", "(b)(o)(b)", "(?:bob|a\\|b)", "\\w+", "(.*)", "(a)?.*", "", "[a-z]+", "[^/]+", ".{{2,3}}", "b{{1,}}ob",
-                 "(.+)\\.(.+)", "\\.\\*", "a\\|b", "bo?b", "(bo)+b?", "BOB|Bob", ".+?", "(.)(.*)"]
+                 "(.+)\\.(.+)", "\\.\\*", "a\\|b", "bo?b", "(bo)+b?", "BOB|Bob", ".+?", "(.)(.*)",
+                 # named groups (outside the Coq regex dialect: decided by the literal-substitution oracle only); a group may be
+                 # called like a hole of the collection pattern -- {user} is the login all the same
+                 "(?P<user>[^@]+)@(?P<domain>.+)", "(?P<user>b)ob", "(?P<login>bob|alice)"]
 COLL_PATTERNS = ["", ".*", "{user}", "{user}/[^/]+", "{user}/.*", "{user}(/.*)?", "[^/]+", "[^/]+/[^/]+", "[^/]*", "{0}", "{0}/[^/]+",
                  "{1}", "{0}/{1}", "{1}/{0}", "public", "public/[^/]+", "{user}/private", "(?:{user}|public)/[^/]+", "{0}{user}",
                  "{user}{{0,1}}", "[^/]{{1,3}}", "{{user}}", "{user}/cal\\.ics", ".+/{user}", "({user})", "{}", "{}/{}", "{user}|public",
-                 "{user}/[^/]+/[^/]+", "{user}/[^/]+(/[^/]+)?", "{2}", ".*/.*", "bob", "{user}.*", "a|b", "{0}.*"]
+                 "{user}/[^/]+/[^/]+", "{user}/[^/]+(/[^/]+)?", "{2}", ".*/.*", "bob", "{user}.*", "a|b", "{0}.*",
+                 # patterns with a leading or ending slash: the sanitised path has neither, so they match nothing (but the root for "/?")
+                 "{user}/", "/{user}", "{user}/private/", "/.*", "[^/]+/", "/?", "{user}/[^/]+/"]
 BAD_PATTERNS = ["(", "[a", "*", "{user", "}", "{", "a{2,1}", "\\", "{0!r}", "(?P<u>.+)", "^bob$", "a{{", "{x}", "\\q", "a**", "{0}{}"]
 COMPONENTS = ["bob", "bo", "bobby", "Bob", "alice", "cal", "public", "private", "a", "b", ".*", "a|b", "(", "example.com", "bob@example.com",
               "a.b", "axb", "cal.ics", "calxics", "é", "a b", "[a]", "{user}", "x\\", "a+b", "aab", "bob\n", ".+", "{0}", "@example.com",
